@@ -528,6 +528,13 @@ def run(chk, facts, tier, only=None):
         if only and only != rid:
             continue
         chk.run_rule(rid, desc, fn)
+    if only is None:
+        import c07
+        # "with a quota q it terminates after work proportional to q": every step is charged, fast paths are bulk-charged, and a failed
+        # attempt below opt keeps what it spent
+        chk.include(c07, "C07.R1", "C06.R6", facts)
+        chk.include(c07, "C07.R2", "C06.R7", facts)
+        chk.include(c07, "C07.R3", "C06.R8", facts)
 
 
 def short_fn(k):
